@@ -923,7 +923,11 @@ class Executor(object):
     def assign(self, tgt, v, st):
         if isinstance(tgt, ast.Name):
             lt = self.contract.local_types.get(tgt.id) if self.contract is not None and self.inline_depth == 0 else None
-            if lt is not None:
+            if lt is not None and v.pt.kind == 'list' and lt.kind == 'list' and v.pt != lt:
+                # a local that is re-bound to a list of another element type (xs = [str(v) for v in xs]): the value keeps its own static
+                # type; the declared type only says what an empty literal bound to this name is
+                pass
+            elif lt is not None:
                 v = self.coerce(v, lt, st)
             elif v.pt.kind in ('emptylist', 'emptydict', 'emptyset'):
                 raise OutOfSubset('local %s is assigned an empty container: declare its type with local_types (line %d)' % (tgt.id, tgt.lineno))
